@@ -665,15 +665,24 @@ vp_fstat(int fd, struct stat *st) {
   return 0;
 }
 
+static int vp_stat_calls;
+static int vp_stat_soft;                    /* harness: the unit treats a failing stat(2) as "unknown", not as an error */
+static int vp_stat_reliable[VP_NFILES];     /* harness: stat(2) of this file does not fail (see lockfile.c) */
+
 static int
 vp_stat(const char *path, struct stat *st) {
   int k, f;
   vp_clock++;
+  vp_stat_calls++;
   f = vp_name_file[vp_name_id(path)];
   k = vp_kind(0);
   VP_ASSUME(k != VP_R_EINTR);
   if (k == VP_R_FAIL) {
-    vp_fail_hard(8, vp_pick_errno());
+    VP_ASSUME(!vp_stat_reliable[f]);
+    if (vp_stat_soft)
+      errno = vp_pick_errno();
+    else
+      vp_fail_hard(8, vp_pick_errno());
     return -1;
   }
   st->st_dev = (dev_t)vp_file_dev[f];
